@@ -529,18 +529,30 @@ class GeckoAsyncSpaMan(ABC, AsyncTasks):
         try:
             while True:
 
-                if (
-                    self.spa_state == GeckoSpaState.IDLE
-                    and self._spa_descriptors is None
-                ):
-                    await self.async_locate_spas(self._spa_address)
+                try:
+                    if (
+                        self.spa_state == GeckoSpaState.IDLE
+                        and self._spa_descriptors is None
+                    ):
+                        await self.async_locate_spas(self._spa_address)
 
-                if (
-                    self.spa_state == GeckoSpaState.LOCATED_SPAS
-                    and self._spa_identifier is not None
-                    and self._facade is None
-                ):
-                    await self.async_connect(self._spa_identifier, self._spa_address)
+                    if (
+                        self.spa_state == GeckoSpaState.LOCATED_SPAS
+                        and self._spa_identifier is not None
+                        and self._facade is None
+                    ):
+                        await self.async_connect(
+                            self._spa_identifier, self._spa_address
+                        )
+
+                except asyncio.CancelledError:
+                    raise
+
+                except Exception:  # noqa
+                    # The pump must survive, e.g. a reset during a connection
+                    # attempt, so start the sequence again
+                    _LOGGER.exception("Exception in sequence pump, restarting")
+                    await self.async_reset()
 
                 await asyncio.sleep(GeckoConstants.ASYNCIO_SLEEP_TIMEOUT_FOR_YIELD)
 
